@@ -342,8 +342,11 @@ def write_evidence(prop, tier, seed, merged, *, rule, wall_s, assumptions, level
         "wall_s": round(float(wall_s), 2),
         "violations": int(nviol),
     }
-    os.makedirs(os.path.join(VERIF, "evidence"), exist_ok=True)
-    path = os.path.join(VERIF, "evidence", f"{prop}.json")
+    # a run against another tree (EINX_REPO=<scratch worktree>, used for seeded changes) must not replace the evidence of /repo
+    other = os.environ.get("EINX_REPO") not in (None, "", "/repo")
+    edir = os.path.join(VERIF, "replays", "_evidence_other_tree") if other else os.path.join(VERIF, "evidence")
+    os.makedirs(edir, exist_ok=True)
+    path = os.path.join(edir, f"{prop}.json")
     tmp = path + ".tmp"
     with open(tmp, "w") as f:
         f.write(json.dumps(ev, indent=1, sort_keys=True, default=_json_default))
